@@ -110,3 +110,33 @@ pub open spec fn dec_skip(bytes: Seq<u8>, start: int, end: int, pos: int, limit:
         Some((n, p1)) => dec_skip(bytes, start + 1, end, if p1 + 8 * n < limit { p1 + 8 * n } else { limit }, limit),
     } }
 }
+
+// ===== the presence protocol as the generated READ glue sees it (one step per component, positions abstracted) =====
+
+/// one successful reader step of the protocol for a component with or without presence bit (is_opt)
+pub open spec fn rstep_abs(s0: Scope, is_opt: bool, s1: Scope) -> bool {
+    match s0 {
+        Scope::OptBitField(range) => if range.start < range.end && is_opt { s1 == Scope::OptBitField(Range { start: (range.start + 1) as usize, end: range.end }) } else { s1 == s0 },
+        Scope::AllBitField(range) => if range.start < range.end { s1 == Scope::AllBitField(Range { start: (range.start + 1) as usize, end: range.end }) } else { s1 == s0 },
+        Scope::ExtensibleSequence { name, bit_pos, opt_bit_field, calls_until_ext_bitfield, number_of_ext_fields } =>
+            if calls_until_ext_bitfield == 0 {
+                // first extension addition: no addition transmitted, or the transmitted bitmap (whatever its size) minus its first bit
+                // (or nothing happened: read_sequence ignores a failed step of its own entry -- `let _ = self.read_bit_field_entry(false);` --
+                // which can only fail here, before the extension header could be read, and leaves the scope as it was)
+                s1 == Scope::ExtensibleSequenceEmpty(name) || (s1 matches Scope::AllBitField(r1) && r1.start <= r1.end) || s1 == s0
+            } else {
+                s1 == (Scope::ExtensibleSequence { name, bit_pos,
+                    opt_bit_field: (match opt_bit_field { Some(range) if is_opt => Some(Range { start: (range.start + 1) as usize, end: range.end }), _ => opt_bit_field }),
+                    calls_until_ext_bitfield: (calls_until_ext_bitfield - 1) as usize, number_of_ext_fields })
+            },
+        Scope::ExtensibleSequenceEmpty(_) => s1 == s0,
+    }
+}
+
+/// the functional step contract of Scope::read_from_field implies the abstract step
+pub proof fn lemma_rstep_abs(s0: Scope, bytes: Seq<u8>, pos0: int, limit: int, is_opt: bool, s1: Scope, pos1: int, r: Result<Option<bool>, Error>)
+    requires scope_read_step(s0, bytes, pos0, limit, is_opt, s1, pos1, r), r is Ok, 0 <= pos0 <= limit,
+        s0 matches Scope::ExtensibleSequence { name, bit_pos, opt_bit_field, calls_until_ext_bitfield, number_of_ext_fields } ==> (calls_until_ext_bitfield > 0 && is_opt ==> (opt_bit_field matches Some(range) ==> range.start < range.end)),
+    ensures rstep_abs(s0, is_opt, s1)
+{
+}
